@@ -162,6 +162,7 @@ def run_case(spec, ctx, R):
     rng = gen.rng_for(spec["seed"], "c12", spec["idx"])
     m, n, Rk, P, r, spec_kind, svals = _config(rng, spec)
     A, _, _ = refq.with_singular_values(rng, m, n, svals)
+    A = gen.layout(A, ["C", "C", "F", "strided", "C", "transposed_view"][spec["idx"] % 6])
     routine = spec["routine"]
     N = min(m, n)
     if routine == "rand_qsvd":
